@@ -209,5 +209,11 @@ func runDKGFaults(t *testing.T, rc *RunCtx) {
 }
 
 func init() {
-	propRunners["C13"] = runDKGFaults
+	propRunners["C13"] = func(t *testing.T, rc *RunCtx) {
+		if rc.Param("mode", "") == "realnet" {
+			runRealNet(t, rc, "C13")
+			return
+		}
+		runDKGFaults(t, rc)
+	}
 }
